@@ -271,7 +271,7 @@ def run_verus(res, woven_text, timeout=300, rlimit=None, extra=None):
             tool_errors.append(rec)
         elif 'rlimit' in msg or 'Resource limit' in msg or 'timed out' in msg:
             budget.append(rec)
-        elif any(k in msg for k in FAIL_KINDS):
+        elif any(k in msg.lower() for k in FAIL_KINDS):     # (case-insensitive: Verus capitalises some of these, e.g. `Call to non-static function fails to satisfy callee.requires`)
             res.failed.append(rec)
         else:
             tool_errors.append(rec)
